@@ -46,6 +46,69 @@ enum Sc {
     /// N seeded uniform crossovers: positions are decided independently
     /// (joint frequency of position pairs at several distances == 1/4)
     Indep { container: Container, len: usize, n: u64, seed: u64, cells_total: u64 },
+    /// two-point crossover of genomes of zero-sized genes (`Vec<()>`), which may be as long as usize::MAX at no
+    /// cost: lengths no sized genome can reach (2^32 +- 1, usize::MAX - 1, usize::MAX); `lb_less` = the second
+    /// parent is that much shorter (0 = equal lengths)
+    ZstXo { len: usize, lb_less: usize, tuple: bool, rng: RngSpec },
+}
+
+fn exec_zst(len: usize, lb_less: usize, tuple: bool, spec: &RngSpec, obs: &mut Obs) -> Vec<Violation> {
+    use ec_core::operator::recombinator::Recombinator;
+    use ec_linear::recombinator::two_point_xo::TwoPointXo;
+    let lb = len - lb_less.min(len);
+    let mut rng = spec.build();
+    let r = catch(|| {
+        let (a, b): (Vec<()>, Vec<()>) = (vec![(); len], vec![(); lb]);
+        if tuple {
+            TwoPointXo.recombine((a, b), &mut rng).map(|c| c.len()).map_err(|e| (e.0, e.1))
+        } else {
+            TwoPointXo.recombine([a, b], &mut rng).map(|c| c.len()).map_err(|e| (e.0, e.1))
+        }
+    });
+    obs.count("draws", rng.draws());
+    obs.count("fault.adversarial-stream-words", rng.boundary_fired());
+    obs.hit("probe.zero-sized-genes(length-up-to-usize::MAX)");
+    obs.nontrivial(mix(mix(0x25f, len as u64), lb as u64));
+    let mut v = Vec::new();
+    match r {
+        Err(p) => v.push(Violation::new(
+            "never-panics",
+            format!("panic:TwoPoint/Vec<()>:{}", if len == lb { "equal-lengths" } else { "unequal-lengths" }),
+            format!("two-point crossover of Vec<()> parents of lengths {len} and {lb} panicked: {}", p.message),
+        )),
+        Ok(Ok(n)) => {
+            if len != lb {
+                v.push(Violation::new(
+                    "unequal-lengths-are-errors",
+                    "unequal-accepted:TwoPoint/Vec<()>".to_string(),
+                    format!("Vec<()> parents of different lengths {len},{lb} produced a child of length {n}"),
+                ));
+            } else if n != len {
+                v.push(Violation::new(
+                    "child-has-parents-length",
+                    "child-length:TwoPoint/Vec<()>".to_string(),
+                    format!("Vec<()> parents of length {len} produced a child of length {n}"),
+                ));
+            }
+        }
+        Ok(Err((x, y))) => {
+            obs.hit("fault.unequal-parent-lengths");
+            if len == lb {
+                v.push(Violation::new(
+                    "length-error-only-for-unequal",
+                    "spurious-length-error:TwoPoint/Vec<()>".to_string(),
+                    format!("equal-length Vec<()> parents ({len}) were rejected as DifferentGenomeLength({x},{y})"),
+                ));
+            } else if (x, y) != (len, lb) {
+                v.push(Violation::new(
+                    "length-error-reports-lengths",
+                    "length-error-fields:TwoPoint/Vec<()>".to_string(),
+                    format!("Vec<()> parents of lengths {len},{lb} reported as DifferentGenomeLength({x},{y})"),
+                ));
+            }
+        }
+    }
+    v
 }
 
 type Tagged = (u8, usize);
@@ -419,8 +482,8 @@ fn exec_reach(container: Container, len: usize, n: u64, seed: u64, obs: &mut Obs
     v
 }
 
-const INDEP_LENS: [usize; 5] = [2, 9, 33, 65, 130];
-const INDEP_DISTS: [usize; 8] = [1, 2, 7, 8, 16, 32, 64, 128];
+const INDEP_LENS: [usize; 6] = [2, 9, 33, 65, 130, 17_000];
+const INDEP_DISTS: [usize; 15] = [1, 2, 7, 8, 16, 32, 64, 128, 512, 1024, 2048, 4096, 8192, 16_384, 16_999];
 
 fn indep_pairs(len: usize) -> Vec<(usize, usize)> {
     let mut v = Vec::new();
@@ -529,6 +592,7 @@ impl Check for C10 {
             "probe.empty-segment",
             "probe.segment-touches-end",
             "probe.segment-touches-start",
+            "probe.zero-sized-genes(length-up-to-usize::MAX)",
         ]
     }
 
@@ -581,10 +645,28 @@ impl Check for C10 {
             return Sc::Indep {
                 container: CONTAINERS[(r % 4) as usize],
                 len: INDEP_LENS[(r / 4) as usize],
-                n: if tier == Tier::Quick { 20_000 } else { 400_000 },
+                // (the long genome: positions thousands of genes apart — pooled or recycled random decisions)
+                n: match (tier, INDEP_LENS[(r / 4) as usize] > 1000) {
+                    (Tier::Quick, false) => 20_000,
+                    (Tier::Quick, true) => 4_000,
+                    (Tier::Thorough, false) => 400_000,
+                    (Tier::Thorough, true) => 40_000,
+                },
                 seed: g.next_u64(),
                 cells_total: indep_cells_total(),
             };
+        }
+        if g.chance(1, 500) {
+            let len = match g.below(7) {
+                0 => usize::MAX,
+                1 => usize::MAX - 1,
+                2 => 1usize << 32,
+                3 => (1usize << 32) + 1,
+                4 => (1usize << 32) - 1,
+                5 => 1usize << 63,
+                _ => g.next_u64() as usize >> g.below(40),
+            };
+            return Sc::ZstXo { len, lb_less: if g.chance(1, 4) { g.urange(1, 2) } else { 0 }, tuple: g.coin(), rng: RngSpec::swarm(g) };
         }
         let kind = if g.coin() { Kind::TwoPoint } else { Kind::Uniform };
         let container = *g.pick(&CONTAINERS);
@@ -595,6 +677,9 @@ impl Check for C10 {
             2 if g.chance(1, 25) => {
                 if g.coin() {
                     *g.pick(&[31usize, 32, 33, 63, 64, 65, 127, 128, 129, 255, 256, 257, 1023, 1024, 1025])
+                } else if g.chance(1, 40) {
+                    // beyond 16 bits
+                    *g.pick(&[65_535usize, 65_536, 65_537, 100_000, 131_073, 200_000])
                 } else {
                     g.log_uniform(9, 20_000)
                 }
@@ -622,6 +707,7 @@ impl Check for C10 {
             Sc::PrimSegment { la, lb, start, end, seed } => exec_prim_segment(*la, *lb, *start, *end, *seed, obs),
             Sc::Reach { container, len, n, seed } => exec_reach(*container, *len, *n, *seed, obs),
             Sc::Indep { container, len, n, seed, cells_total } => exec_indep(*container, *len, *n, *seed, *cells_total, obs),
+            Sc::ZstXo { len, lb_less, tuple, rng } => exec_zst(*len, *lb_less, *tuple, rng, obs),
         }
     }
 
